@@ -67,3 +67,13 @@ Proof.
     + intros _ q Hq Hhq. apply filter_In. split; [|exact Hhq]. apply in_or_app. right. exact Hq.
     + intros Hgt. lia.
 Qed.
+
+(* a local-only publication goes to nobody under either router, and is traced as published (and delivered once) only *)
+Theorem local_only_sends_nothing rand size s m s' rc tr :
+  srstep rand size s (RLocalOnly m) = Some (s', rc, tr) ->
+  rc = [] /\ (forall q, ~ In (TSend q) tr) /\ sr_peers s' = sr_peers s /\ sr_tmap s' = sr_tmap s /\ sr_joined s' = sr_joined s.
+Proof.
+  cbn [srstep]. destruct (memb (sm_id m) (sr_seen s)); intros H; inversion H; subst; cbn.
+  - split; [reflexivity|]. split; [|auto]. intros q Hq. destruct Hq as [Hq|Hq]; [discriminate Hq|exact Hq].
+  - split; [reflexivity|]. split; [|auto]. intros q Hq. destruct Hq as [Hq|[Hq|Hq]]; [discriminate Hq|discriminate Hq|exact Hq].
+Qed.
